@@ -251,6 +251,11 @@ def run_shard(sh):
                 nlri = gen.prefix_list4(rng, 6) or ['192.0.2.0/24']
                 if rng.random() < 0.3:
                     wdl = gen.prefix_list4(rng, 3)
+                if rng.random() < 0.08:
+                    # a long request: dozens to hundreds of prefixes
+                    nlri = ['10.%d.%d.0/24' % (j // 256, j % 256) for j in range(rng.choice([50, 51, 64, 100, 300]))]
+                    if rng.random() < 0.5:
+                        wdl = ['172.16.%d.0/24' % j for j in range(rng.choice([51, 120]))]
             elif kind == 'mp':
                 fam = rng.choice(['ipv6', 'vpnv4', 'evpn', 'flowspec'])
                 attrs = {1: 0, 2: [], 14: gen.mp_value(rng, fam, nmax=3)}
